@@ -275,6 +275,19 @@ theorem scatter_gather_identity {V} (ins : List (Tag × List V)) (hnd : (ins.map
       exact List.perm_middle
   exact (gather_multi_key ins hnd es (h.trans (hre ins)) pa pb hab sa sb).1
 
+/-- **provenance recorded by `_gather`.** Whenever the arrival of a token makes the gather step emit a list token, the inputs it
+    records for it (`input_token_ids`) are the size token received for that key and exactly the element tokens of which the list
+    is the sorted arrangement — nothing missing, nothing foreign. (Forced gathering records a synthesised size token instead:
+    modelled as `sizeReceived = false`, compared with the database by the K-check.) -/
+theorem gather_provenance_complete {V} (d : Nat) (s : St V) (e : Ev V) (ho : s.openSize = true ∧ s.openElem = true)
+    (hd : match e with | .term _ _ => False | _ => True) :
+    ∀ p ∈ provOfStep d s e, p.sizeReceived = true ∧ (p.key, sortToks p.elems) ∈ (step d s e).out ∧ (step d s e).sizes p.key ≠ none :=
+  provOfStep_data d s e ho (by cases e <;> first | exact hd | trivial)
+
+/-- non-vacuity: the second of two elements completes key `0`: one emission whose provenance is both elements -/
+example : (runProv 1 ({} : St Nat) [.size [0] 2, .elem ⟨[0, 1], 7⟩, .elem ⟨[0, 0], 5⟩]).map (fun p => (p.key, p.sizeReceived, p.elems.length)) =
+    [([0], true, 2)] := by decide
+
 /-- non-vacuity: a restore on two of three elements -/
 example : (srun [SIn.list [0] [10, 20, 30], SIn.restore [[0, 0], [0, 2]], SIn.list [1] [40], SIn.term .completed]).elems =
     [(⟨[0, 0], 10⟩ : Tok Nat), ⟨[0, 2], 30⟩] := by decide
